@@ -15,7 +15,7 @@
 From Coq Require Import List Ascii String Bool Arith ZArith QArith Lia.
 Import ListNotations.
 From TL Require Import Model.Str Model.Rpn Model.Table Model.Eval Model.Pipeline
-  Proofs.Table_inv Proofs.Table_remove Proofs.Rpn_parse Proofs.Rpn_output Proofs.Eval_sem Proofs.Eval_machine Proofs.Eval_run Proofs.Eval_top Proofs.Eval_operate Proofs.Eval_assign Proofs.Replace Proofs.Surface Proofs.Surface_eval Proofs.Surface_assign.
+  Proofs.Table_inv Proofs.Table_remove Proofs.Rpn_parse Proofs.Rpn_output Proofs.Eval_sem Proofs.Eval_machine Proofs.Eval_run Proofs.Eval_top Proofs.Eval_operate Proofs.Eval_assign Proofs.Replace Proofs.Surface Proofs.Surface_eval Proofs.Surface_assign Proofs.Surface_lead.
 
 (* the parser: precedence classes, left associativity, parentheses - for every expression tree *)
 Theorem C02_parse : forall fuel e, wf e -> (size e < fuel)%nat -> makeRPN fuel (print e) = Rpn.Ok (postfix e).
@@ -112,6 +112,12 @@ Theorem C02_surface_assign lhs x t : lhs_ok lhs -> swf x -> clean (print (lower 
   operate_str t (lhs ++ "="%char :: sprint x) = operate_str t (assign_str lhs (lower x)).
 Proof. exact (surface_assign_operate lhs x t). Qed.
 
+(* a leading unary minus without parentheses, "-<surface expression>": the first-character rule of the unary pass makes it "0-...",
+   so the minus applies to the first term (neg_lead: the tree in which 0-. is attached to the leftmost operand of the additive chain) *)
+Theorem C02_surface_lead x t : swf x -> clean (print (neg_lead (lower x))) = true ->
+  operate_str t ("-"%char :: sprint x) = operate_str t (print (neg_lead (lower x))).
+Proof. exact (lead_operate x t). Qed.
+
 (* spaces anywhere in the input are irrelevant *)
 Theorem C02_spaces e t d s :
   filter (fun c => negb (Ascii.eqb c " ")) s = print e ->
@@ -134,6 +140,7 @@ Print Assumptions C02_assign_coord.
 Print Assumptions C02_surface.
 Print Assumptions C02_surface_operate.
 Print Assumptions C02_surface_assign.
+Print Assumptions C02_surface_lead.
 
 (* non-vacuity: every hypothesis of C02_operate_partial holds for a + 2 * (x - a) on a two-fix track, and for a+D@(x)+SUM@(a) *)
 Example C02_nonvacuous :
